@@ -259,6 +259,25 @@ type tNameTwoEmbTagSameAsField struct {
 	Z bool
 }
 
+// omitempty on every kind of field: encoding/json omits false, 0, nil pointers and interfaces,
+// and empty arrays ([0]T!), slices, maps and strings - but never a struct or a non-empty array
+type tOmitKinds struct {
+	Z0 [0]int         `json:"z0,omitempty"`
+	A1 [1]int         `json:"a1,omitempty"`
+	St tInner         `json:"st,omitempty"`
+	Mp map[string]int `json:"mp,omitempty"`
+	Sl []int          `json:"sl,omitempty"`
+	Pt *int           `json:"pt,omitempty"`
+	An any            `json:"an,omitempty"`
+	Fl float64        `json:"fl,omitempty"`
+	Un uint8          `json:"un,omitempty"`
+}
+
+type tOmitZeroArrays struct {
+	Pad  [0]string    `json:"pad,omitempty"`
+	Pads [0][2]tInner `json:"pads,omitempty"`
+}
+
 // a pointer-embedded unexported struct with a JSON name
 type tEmbedPtrTaggedUnexported struct {
 	*tEmbBase `json:"in"`
@@ -357,7 +376,14 @@ type TypeCase struct {
 	Std     bool // contains standard-library marshaler types (excluded from C09)
 	Invalid bool // For must return an error (or prune with IgnoreInvalidTypes)
 	Cyclic  bool
+	// NeverEmitted: the type has a field encoding/json never emits but does decode
+	// (`[0]T` with omitempty). The type model is observed on the encoder, so it does not
+	// know such a field: the type is used for C04 (encodings) only, not for C09's decoding
+	// oracle nor for the property-set comparison of C16.
+	NeverEmitted bool
 }
+
+func neverEmitted(c TypeCase) TypeCase { c.NeverEmitted = true; return c }
 
 func tc[T any](name string) TypeCase { return TypeCase{Name: name, T: reflect.TypeFor[T]()} }
 
@@ -377,7 +403,7 @@ func TypeFamily() []TypeCase {
 		tc[tEmbedValue]("tEmbedValue"), tc[tEmbedPtr]("tEmbedPtr"), tc[tEmbedShadow]("tEmbedShadow"), tc[tEmbedAmbiguous]("tEmbedAmbiguous"), tc[tEmbedTagged]("tEmbedTagged"), tc[tEmbedScalar]("tEmbedScalar"), tc[tEmbedTaggedExported]("tEmbedTaggedExported"),
 		tc[tEmbedTaggedThenPlain]("tEmbedTaggedThenPlain"), tc[tEmbedScalarThenPlain]("tEmbedScalarThenPlain"), tc[tEmbedDeepTagged]("tEmbedDeepTagged"), tc[tEmbedDeepPlain]("tEmbedDeepPlain"), tc[tEmbedPlainThenTagged]("tEmbedPlainThenTagged"),
 		tc[tNameShallowFirst]("tNameShallowFirst"), tc[tNameShallowLast]("tNameShallowLast"), tc[tNameTaggedWins]("tNameTaggedWins"), tc[tNameDeepConflict]("tNameDeepConflict"), tc[tNameShadowOmit]("tNameShadowOmit"), tc[tEmbedUnexportedScalar]("tEmbedUnexportedScalar"),
-		tc[tNameTagSameAsField]("tNameTagSameAsField"), tc[tNameTwoEmbTagged]("tNameTwoEmbTagged"), tc[tNameTwoEmbTagSameAsField]("tNameTwoEmbTagSameAsField"), tc[tEmbedPtrTaggedUnexported]("tEmbedPtrTaggedUnexported"), tc[tWideSparse]("tWideSparse"), tc[tPtrAny]("tPtrAny"), tc[*any]("*any"), tc[map[string]*any]("map[string]*any"),
+		tc[tNameTagSameAsField]("tNameTagSameAsField"), tc[tNameTwoEmbTagged]("tNameTwoEmbTagged"), tc[tNameTwoEmbTagSameAsField]("tNameTwoEmbTagSameAsField"), tc[tEmbedPtrTaggedUnexported]("tEmbedPtrTaggedUnexported"), tc[tWideSparse]("tWideSparse"), tc[tPtrAny]("tPtrAny"), neverEmitted(tc[tOmitKinds]("tOmitKinds")), neverEmitted(tc[tOmitZeroArrays]("tOmitZeroArrays")), tc[*any]("*any"), tc[map[string]*any]("map[string]*any"),
 		tc[tNamed]("tNamed"), tc[tNamedInt]("tNamedInt"), tc[tNamedSlice]("tNamedSlice"), tc[tDup]("tDup"), tc[tWeirdTags]("tWeirdTags"),
 	}
 	std := tc[tStd]("tStd")
@@ -480,7 +506,7 @@ func ForScaffold() (n int, bad []string) {
 			}
 			// the properties are exactly the fields encoding/json emits, required exactly when not
 			// optional (observed on the real encoding/json by the type model), without duplicates
-			if opts == nil && s1 != nil && c.T.Kind() == reflect.Struct && !c.Std {
+			if opts == nil && s1 != nil && c.T.Kind() == reflect.Struct && !c.Std && !c.NeverEmitted {
 				tm := refsem.BuildTModel(c.T)
 				if tm.Kind == refsem.TKStruct && tm.HasUnknown() == "" {
 					want, wantReq := map[string]bool{}, map[string]bool{}
